@@ -68,7 +68,10 @@ func init() {
 			Sel{Pattern: "css.Parser.*", Levels: "T", OnlyTags: []string{"C01"}},
 			// zero-annotation sweep over every function of the repository: a pointer obtained from a comma-ok type assertion is
 			// dereferenced only where ok holds
-			Sel{Pattern: "*", Levels: "S", Kinds: []string{"commaok"}, Except: []string{"*.init"}}),
+			Sel{Pattern: "*", Levels: "S", Kinds: []string{"commaok"}, Except: []string{"*.init"}},
+			// nil-dereference obligations of the JSON conversion of object properties and array elements (their "is this JSON at
+			// all" guards are what keeps a method definition or an elision from being dereferenced)
+			Sel{Pattern: "js.Property.JSON", Levels: "S", Kinds: []string{"nil", "pre", "cover"}}, Sel{Pattern: "js.ArrayExpr.JSON", Levels: "S", Kinds: []string{"nil", "pre", "cover"}}),
 		Analyses: []string{"depth"},
 		NotDecided: []string{
 			"memory safety (nil, bounds) and termination of the js.Parser functions and of the AST printing methods (JS/String/JSON): decided for all of them is only the annotation-free obligation that the result of a comma-ok type assertion is not dereferenced where ok is false; for the JS parser additionally the recursion-depth argument (every call-graph cycle passes through a depth guard; guards recurse only under their increment and limit; no parser function lowers a nesting counter)",
@@ -109,12 +112,12 @@ func init() {
 	registerProp(&PropSpec{
 		ID: "C17", Title: "Whitespace, entity and attribute normalisation preserves meaning",
 		Sel: []Sel{
-			{Pattern: "parse.ReplaceMultipleWhitespace", Levels: "S"}, {Pattern: "parse.replaceEntities", Levels: "SF"}, {Pattern: "parse.ReplaceEntities", Levels: "S"},
+			{Pattern: "parse.ReplaceMultipleWhitespace", Levels: "SF"}, {Pattern: "parse.ReplaceMultipleWhitespaceAndEntities", Levels: "SF"}, {Pattern: "parse.replaceEntities", Levels: "SF"}, {Pattern: "parse.ReplaceEntities", Levels: "S"},
 			{Pattern: "html.EscapeAttrVal", Levels: "SF"}, {Pattern: "xml.EscapeAttrVal", Levels: "SF"}, {Pattern: "xml.EscapeCDATAVal", Levels: "SF"},
 		},
 		NotDecided: []string{
 			"decoded-text preservation and idempotence of ReplaceEntities (HTML's entity table is an external oracle); proved is the local guard they rest on: a reference is never decoded to a bare '&' directly in front of a letter, digit or '#'",
-			"ReplaceMultipleWhitespace functional result (every maximal run becomes one space/newline) and ReplaceMultipleWhitespaceAndEntities (its obligations are not discharged: not claimed)",
+			"ReplaceMultipleWhitespace / ReplaceMultipleWhitespaceAndEntities: proved are memory safety, never-longer, and the run rule at its source: after the iteration that meets a white-space byte, that position holds ' ' or (if the byte was a line break) a newline, whatever the run's length, and neither compaction nor entity rewriting writes in front of it; not decided: that the compaction drops exactly the rest of each run and nothing else (the end-to-end 'equals the regular-expression replacement' statement), and equality of the combined function with the two applied in sequence",
 			"round trip of the escaped value through the html/xml lexers (proved instead are the sufficient local conditions: no raw quote inside a quoted value; an html value is left unquoted only if it contains no ASCII whitespace, quote, backtick, '=', '<' or '>')",
 		},
 		Technique: "deductive verification: in-place compaction index invariants, never-longer postcondition of replaceEntities under the stated map assumption, exact buffer sizing of the Escape* functions by a counting invariant (cnt spec function, lemmas proved by induction), no-raw-quote postcondition; VCs discharged by z3/cvc5",
